@@ -111,6 +111,43 @@ def parseDump (c : Case) : Option (Array EK × Option String) := do
     u := u + 1
   return (out, bad)
 
+/-- vertex-level check of the dump: two DISTINCT dummy vertices at one point that both carry edges but do
+    not have the same neighbour points — the graph is not joined at that point although `crossing_shared`
+    proves that the model's lines share their vertex there.  Returns the first such point. -/
+def splitNode (c : Case) : Option String := do
+  let xs ← (c.get1 "agx").bind nums?
+  let ys ← (c.get1 "agy").bind nums?
+  let cl ← c.get1 "agc"
+  let al ← c.get1 "aga"
+  -- neighbour point lists per vertex
+  let mut nb : Array (List (Rat × Rat × Bool)) := #[]
+  let mut i := 0
+  while i < al.size do
+    let deg := nat! al[i]!
+    let l : List (Rat × Rat × Bool) := (List.range deg).map fun j =>
+      let w := nat! (al[i + 1 + 3 * j]?.getD "0")
+      (xs.getD w 0, ys.getD w 0, cl.getD w "0" == "1")
+    nb := nb.push l
+    i := i + 1 + 3 * deg
+  -- dummy vertices with edges, sorted by point
+  let vs := ((Array.range xs.size).filter fun u => cl.getD u "0" != "1" && !(nb.getD u []).isEmpty)
+  let key := fun (u : Nat) => (xs.getD u 0, ys.getD u 0)
+  let srt := vs.qsort fun a b => (key a).1 < (key b).1 || ((key a).1 == (key b).1 && (key a).2 < (key b).2)
+  for j in [0:srt.size - 1] do
+    let a := srt[j]!; let b := srt[j + 1]!
+    if key a == key b then
+      let na := nb.getD a []; let nbb := nb.getD b []
+      if !(na.all nbb.contains && nbb.all na.contains) then
+        return s!"two distinct dummy vertices at ({ratToString (key a).1},{ratToString (key a).2}) carry different edges (the graph is not joined there)"
+  none
+
+/-- the routing boxes are pairwise separated (the scenes the C05 property text quantifies over) -/
+def separatedBoxes (s : Scene) : Bool :=
+  let rec go : List Rect → Bool
+    | [] => true
+    | a :: r => r.all (fun b => a.x1 < b.x0 || b.x1 < a.x0 || a.y1 < b.y0 || b.y1 < a.y0) && go r
+  go s.rects
+
 def modelKeys (s : Scene) : Array EK :=
   (s.graph.map fun (a, b) => mkEK a.x a.y a.k.isConn b.x b.y b.k.isConn).toArray
 
@@ -141,7 +178,14 @@ def checkOrthVis (c : Case) : Option (Bool × String) × List (String × Nat) :=
   | some e => return (some (true, s!"orthvis: libavoid's visibility edge {e.str} is not axis-parallel or passes through the interior of a routing box"), stats)
   | none => pure ()
   match firstMissing impl model, firstMissing model impl with
-  | none, none => return (none, stats)
+  | none, none =>
+    -- vertex level: the dumped graph must be joined wherever two of its lines meet (`crossing_shared`);
+    -- outside the property's scope (touching / overlapping routing boxes) a split is only counted
+    match splitNode c with
+    | some m =>
+      if separatedBoxes s then return (some (false, s!"orthvis: {m}"), stats)
+      else return (none, ("orthvis.split-node-at-touching-boxes", 1) :: stats)
+    | none => return (none, stats)
   | some e, _ =>
     return (some (false, s!"orthvis: libavoid's graph has edge {e.str}, the model's has not ({impl.size} vs {model.size} edges)"), stats)
   | none, some e =>
